@@ -14,8 +14,10 @@ from vlib.harness import Sub
 PROPERTY = "C19"
 RULE = ("history: Hypothesis lists of 2-5 calls among map (thin and thick, plot=False and at 15% plot=True), histogram2d, "
         "histogram1d, scatter and plot that share argument objects (a mesh Datagroup, Layers with option dictionaries, "
-        "Arrays, a resolution dict with any subset of x/y/z keys, origin, window and limits), other arguments varying "
-        "between calls.  Oracle: deep snapshots (array bytes, units, names, Layer fields, kwargs dicts, dict contents) "
+        "Arrays, Array-valued layer keywords (scatter sizes and colours, vector colours), a resolution dict with any subset of "
+        "x/y/z keys or none, origin, window sizes dx/dy/dz as Quantities in other units, direction as letter / Vector / "
+        "unit-length Vector / VectorBasis / 'top', limits, the dict form of plot), other arguments varying between calls; "
+        "after the last call the first call is repeated on the same objects and must return what it returned first.  Oracle: deep snapshots (array bytes, units, names, Layer fields, kwargs dicts, dict contents) "
         "of every argument before and after each call must be equal, and each call's returned data (x, y, layer data "
         "and mask, unit, mode, norm parameters) must equal the same call made with freshly deep-copied pristine "
         "arguments.  lattice: each of mode, norm, vmin, vmax, operation, bins, weights and one extra keyword (cmap) set "
@@ -26,7 +28,10 @@ RULE = ("history: Hypothesis lists of 2-5 calls among map (thin and thick, plot=
         "sum vs mean) and bin counts / weighted totals for histogram1d.  non-trivial = an argument object reused by "
         ">=2 calls (history) / an option set at both levels with different values (lattice).")
 ASSUMPTIONS = ["matplotlib figures (Agg) are created only by histogram1d/scatter/plot and by the plot=True cases and are "
-               "closed after each call", "vector layers are not rendered (quiver needs resolution >= 16)"]
+               "closed after each call", "vector layers are not rendered (quiver needs resolution >= 16)",
+               "norm options are strings: a matplotlib Normalize instance handed in as an option is autoscaled in place by "
+               "matplotlib itself when a figure is rendered, which is outside what osyris does with its arguments",
+               "limits are python floats (unpacked into keywords)"]
 osyris = None
 Layer = None
 plt = None
@@ -50,6 +55,8 @@ def snap(o, depth=0):
         return ("A", o._array.tobytes(), str(o._array.dtype), o._array.shape, str(o.unit), o.name)
     if isinstance(o, osyris.Vector):
         return ("V", tuple(snap(c) for c in o._xyz.values()), o.name)
+    if isinstance(o, osyris.VectorBasis):
+        return ("VB", snap(o.n), snap(o.u), snap(o.v))
     if isinstance(o, osyris.Datagroup):
         return ("DG", tuple((k, snap(o[k])) for k in o.keys()))
     if isinstance(o, Layer):
@@ -113,11 +120,13 @@ def quiet(fn):
 
 # ------------------------------------------------------------------ history
 call_st = st.one_of(
-    st.fixed_dictionaries({"f": st.just("map"), "layers": st.lists(st.sampled_from(["L1", "L2", "L3"]), min_size=1, max_size=2),
-                           "scatter": st.sampled_from([False, False, True]),
-                           "res": st.sampled_from(["R", "R", "int"]), "dz": st.sampled_from([None, 0.3141, 0.6271]),
+    st.fixed_dictionaries({"f": st.just("map"), "layers": st.lists(st.sampled_from(["L1", "L2", "L3", "L3v"]), min_size=1, max_size=2),
+                           "scatter": st.sampled_from([False, False, "L4", "L4a"]),
+                           "res": st.sampled_from(["R", "R", "int", "default"]), "dz": st.sampled_from([None, "DZ1", "DZ2"]),
+                           "dy": st.sampled_from([None, None, "DY"]),
                            "op": st.sampled_from([None, "mean", "sum"]), "dx": st.sampled_from(["DX", "DX", "DX", None]),
-                           "origin": st.sampled_from(["O", "O", None]), "dir": st.sampled_from(["z", "x", "N"]),
+                           "origin": st.sampled_from(["O", "O", None]),
+                           "dir": st.sampled_from(["z", "x", "N", "N", "U", "B", "top"]),
                            "plot": st.sampled_from([False, False, False, False, False, True]),
                            "norm": st.sampled_from([None, "log"]), "vmin": st.sampled_from([None, 0.5])}),
     st.fixed_dictionaries({"f": st.just("hist2d"), "layers": st.lists(st.sampled_from(["H1", "H2", "AX"]), max_size=2),
@@ -128,7 +137,8 @@ call_st = st.one_of(
                            "bins": st.sampled_from([None, 5, "BINS"]), "weights": st.sampled_from([None, "W"])}),
     st.fixed_dictionaries({"f": st.just("scatter"), "color": st.sampled_from([None, "AY", "red"]),
                            "size": st.sampled_from([None, 3.0, "AS"])}),
-    st.fixed_dictionaries({"f": st.just("plot"), "two": st.booleans(), "kw": st.sampled_from([None, "--"])}),
+    st.fixed_dictionaries({"f": st.just("plot"), "two": st.booleans(), "kw": st.sampled_from([None, "--"]),
+                           "form": st.sampled_from(["arrays", "arrays", "dict"])}),
 )
 hist_case_st = st.fixed_dictionaries({
     "rkeys": st.sampled_from(["x", "xy", "xy", "y", "xyz", "xz", "", "xy"]),
@@ -151,10 +161,21 @@ def _world(case):
         "L3": dg.layer("vec"),
         "L4": Layer(osyris.Vector(*[osyris.Array(values=np.array([0.2, 0.5, 0.8, 0.55]) + 0.01 * i, unit="cm") for i in range(3)],
                                   name="sinks"), mode="scatter", c="red"),
+        "L3v": dg.layer("vec", mode="vec", color=dg["velocity"]),
+        "L4a": Layer(osyris.Vector(*[osyris.Array(values=np.array([0.2, 0.5, 0.8, 0.55]) + 0.01 * i, unit="cm") for i in range(3)],
+                                   name="sinks"), mode="scatter",
+                     s=osyris.Array(values=np.array([0.2, 0.3, 0.4, 0.5]), unit="mm", name="size"),
+                     c=osyris.Array(values=np.array([1.0, 2.0, 3.0, 4.0]), unit="g", name="col")),
         "R": {k: {"x": 8, "y": 4, "z": 3}[k] for k in case["rkeys"]},
         "O": osyris.Vector(0.5317, 0.4523, 0.5711, unit="cm"),
         "N": osyris.Vector(1.0, 0.5, 2.0),
+        "U": osyris.Vector(0.6, 0.0, 0.8, name="spin"),                  # already of unit length
+        "B": osyris.VectorBasis(n=osyris.Vector(1.0, 2.0, 2.0, name="bn") / 3.0, u=osyris.Vector(2.0, 1.0, -2.0, name="bu") / 3.0,
+                                v=osyris.Vector(-2.0, 2.0, -1.0, name="bv") / 3.0),
         "DX": 0.9137 * osyris.units("cm"),
+        "DY": 7.313 * osyris.units("mm"),
+        "DZ1": 3.141 * osyris.units("mm"),
+        "DZ2": 6.271 * osyris.units("mm"),
         "AX": osyris.Array(values=np.linspace(1.0, 9.0, n), unit="cm", name="ax"),
         "AY": osyris.Array(values=np.linspace(2.0, 30.0, n) ** 1.5, unit="g", name="ay"),
         "AS": osyris.Array(values=np.linspace(0.1, 0.2, n), unit="cm", name="as"),
@@ -165,20 +186,26 @@ def _world(case):
     w["H1"] = Layer(w["AY"], operation="mean")
     w["H2"] = Layer(osyris.Array(values=np.arange(n, dtype=np.float64), unit="K", name="h2"), norm="log", vmin=1.0)
     w["H3"] = Layer(w["W"], bins=4)
+    w["PD"] = {"x": w["AX"], "y": w["AY"]}
     return w
 
 
 def _do_call(c, w):
     f = c["f"]
     if f == "map":
-        kw = {"plot": c["plot"], "direction": w["N"] if c["dir"] == "N" else c["dir"]}
-        kw["resolution"] = w["R"] if c["res"] == "R" else 8
+        kw = {"plot": c["plot"], "direction": w[c["dir"]] if c["dir"] in ("N", "U", "B") else c["dir"]}
+        if c["res"] != "default":
+            kw["resolution"] = w["R"] if c["res"] == "R" else 8
+        elif not c["dx"] or c["plot"]:
+            kw["resolution"] = 8          # the default grid (256 x 256) is only affordable on a small window without a figure
         if c["dx"]:
             kw["dx"] = w["DX"]
+            if c.get("dy"):
+                kw["dy"] = w["DY"]
         if c["origin"]:
             kw["origin"] = w["O"]
         if c["dz"] and c["dx"]:
-            kw["dz"] = c["dz"] * osyris.units("cm")
+            kw["dz"] = w[c["dz"]] if isinstance(c["dz"], str) else c["dz"] * osyris.units("cm")
         if c["op"]:
             kw["operation"] = c["op"]
         if c["norm"]:
@@ -186,14 +213,18 @@ def _do_call(c, w):
         if c["vmin"]:
             kw["vmin"] = c["vmin"]
         layers = [w[k] for k in c["layers"]]
+        vecs = (w["L3"], w["L3v"])
         if c["plot"]:
-            layers = [l for l in layers if l is not w["L3"]] or [w["L2"]]
+            layers = [l for l in layers if not any(l is v for v in vecs)] or [w["L2"]]
         if c.get("scatter"):
-            layers = layers + [w["L4"]]
-            if c["dir"] != "N":
+            l4 = w["L4a"] if c["scatter"] == "L4a" else w["L4"]
+            layers = layers + [l4]
+            if c["dir"] in ("z", "x"):
                 kw["plot"] = True        # the scatter layer is only used when the figure is rendered
-                layers = [l for l in layers if l is not w["L3"]]
-                if all(l is w["L4"] for l in layers):
+                if "resolution" not in kw:
+                    kw["resolution"] = 8
+                layers = [l for l in layers if not any(l is v for v in vecs)]
+                if all(l is l4 for l in layers):
                     layers = [w["L2"]] + layers
         return osyris.map(*layers, **kw)
     if f == "hist2d":
@@ -219,6 +250,8 @@ def _do_call(c, w):
         if c["size"]:
             kw["size"] = w["AS"] if c["size"] == "AS" else c["size"]
         return osyris.scatter(w["AX"], w["AX"] * 2.0 if False else w["AS"], **kw)
+    if c.get("form") == "dict":
+        return osyris.plot(w["PD"], **({"ls": c["kw"]} if c["kw"] else {}))
     args = [w["AX"], w["AY"]] + ([w["W"].to("kg")] if False else [])
     if c["two"]:
         args.append(osyris.Array(values=w["AY"].values * 0.5, unit="g", name="half"))
@@ -230,6 +263,7 @@ def history(case, r):
     w = _world(case)
     pristine = copy.deepcopy(case)
     used = {}
+    first_result = None
     for i, c in enumerate(case["calls"]):
         before = {k: snap(v) for k, v in w.items()}
         p, exc = quiet(lambda: _do_call(c, w))
@@ -249,7 +283,7 @@ def history(case, r):
             r.bad(["history-changes-outcome", c["f"]], f"call {i} {c}: raised {exc!r} here but {excf!r} with fresh arguments")
             return
         names = [c["f"]] + [k for k in (c.get("layers") or [])] + (["R"] if c.get("res") == "R" else []) + (
-            ["L4"] if c.get("scatter") else [])
+            [c["scatter"]] if c.get("scatter") else [])
         if c.get("scatter"):
             r.label("scatter_layer")
         for nme in names:
@@ -258,11 +292,27 @@ def history(case, r):
             r.label("call_raises_both")
             continue
         d1, d2 = plot_data(p), plot_data(pf)
+        if i == 0:
+            first_result = d1
+        if c["f"] == "map":
+            r.label("dir_" + str(c["dir"]))
         if d1 != d2:
             which = [k for k in ("x", "y") if d1[k] != d2[k]] or ["layers"]
             r.bad(["result-depends-on-history", c["f"], which[0]], f"call {i} {c}: returned {which} differ from the same call "
                   f"with fresh arguments; earlier calls {[cc['f'] for cc in case['calls'][:i]]}; resolution dict now {dict(w['R'])}")
             return
+    if first_result is not None and not r.records:
+        # "calling them again with the same arguments returns the same data": the first call once more, after the others
+        # (state kept inside the library, e.g. a cached norm or a mutable default, is shared by history and fresh worlds)
+        p, exc = quiet(lambda: _do_call(case["calls"][0], w))
+        if exc is not None:
+            r.bad(["repeat-of-first-call-raises", case["calls"][0]["f"]], f"{exc!r} after {[cc['f'] for cc in case['calls']]}")
+            return
+        if plot_data(p) != first_result:
+            r.bad(["repeat-of-first-call-differs", case["calls"][0]["f"]],
+                  f"call 0 {case['calls'][0]} repeated after {[cc['f'] for cc in case['calls'][1:]]} returned different data")
+            return
+        r.label("first_call_repeated")
     r.nontrivial(any(v >= 2 for k, v in used.items() if k not in ("map", "hist2d", "hist1d", "scatter", "plot")))
     if used.get("R", 0) >= 2:
         r.label("resolution_dict_reused")
@@ -275,10 +325,11 @@ def history(case, r):
 OPTS = {
     "map": ["mode", "norm", "vmin", "vmax", "operation", "cmap"],
     "hist2d": ["mode", "norm", "vmin", "vmax", "operation", "cmap"],
-    "hist1d": ["bins", "weights"],
+    "hist1d": ["bins", "weights", "cumulative"],
 }
 VALUES = {"mode": ("image", "contourf"), "norm": ("log", "linear"), "vmin": (0.0, 2.0), "vmax": (0, 80.0),
-          "operation": ("mean", "sum"), "cmap": ("magma", "viridis"), "bins": (4, 9), "weights": ("W1", "W2")}
+          "operation": ("mean", "sum"), "cmap": ("magma", "viridis"), "bins": (4, 9), "weights": ("W1", "W2"),
+          "cumulative": (True, False)}          # an extra keyword option of histogram1d (handed to matplotlib's hist)
 
 
 def _lattice_cases():
@@ -366,8 +417,17 @@ def lattice(case, r):
                       f"{len(pp.x)} bins, effective option is {nb} (settings {settings})")
                 return
             wname = eff("weights", first)
-            total = float(np.sum(pp.y))
             want = float(np.sum(W[wname].values)) if wname else float(n)
+            yv = np.asarray(pp.y, dtype=np.float64)
+            is_cum = len(yv) > 1 and abs(float(yv[-1]) - want) <= 1e-9 * want
+            if "cumulative" in settings:
+                ecum = bool(eff("cumulative", first))
+                if is_cum != ecum:
+                    r.bad(["lattice", "option-not-effective", f, "cumulative", "layer-level" if first else "call-level"],
+                          f"histogram values {yv.tolist()} are {'cumulative' if is_cum else 'not cumulative'}, effective option "
+                          f"is cumulative={ecum} (settings {settings})")
+                    return
+            total = float(yv[-1]) if is_cum else float(np.sum(yv))
             if abs(total - want) > 1e-9 * want:
                 r.bad(["lattice", "option-not-effective", f, "weights", "layer-level" if first else "call-level"],
                       f"histogram total {total}, effective weights {wname} give {want} (settings {settings})")
